@@ -1418,6 +1418,43 @@ func c09Run(r *mon.Run) {
 			proj(c09CorpusProject(lit, crng), "corpus schema with drawn types for the names it mentions")
 		}
 	}
+	// (g0) two independent faults in one place: which of them is reported must not vary. Two inverted bound pairs on
+	// one value (every pair of the three kinds, on every example kind); two required members that each lead into
+	// their own infinite recursion, next to an optional one; two unknown rules; two duplicate keys
+	{
+		gi := 0
+		emit0 := func(p *project, why string) {
+			if r.Mine(gi) {
+				proj(p, why)
+			}
+			gi++
+		}
+		pairs := [][2]string{{"min: 9", "max: 1"}, {"minLength: 9", "maxLength: 1"}, {"minItems: 9", "maxItems: 1"}}
+		for i := range pairs {
+			for j := range pairs {
+				if i == j {
+					continue
+				}
+				for _, ex := range []string{`"abc"`, `5`, `1.5`, `[]`, `true`, `null`} {
+					rules := strings.Join([]string{pairs[i][0], pairs[i][1], pairs[j][0], pairs[j][1]}, ", ")
+					emit0(&project{Root: ex + " // {" + rules + "}"}, "two inverted bound pairs on one value")
+					emit0(&project{Root: "{\n  \"k\": " + ex + " // {" + pairs[j][1] + ", " + pairs[i][0] + ", " + pairs[j][0] + ", " + pairs[i][1] + "}\n}"}, "two inverted bound pairs on one value")
+				}
+			}
+		}
+		loops := []typeDef{{Name: "@left", Text: `{"x": @left}`}, {Name: "@right", Text: `{"y": @right}`}, {Name: "@third", Text: `{"z": @third}`}}
+		for _, root := range []string{
+			"{\n  \"o\": 1, // {optional: true}\n  \"l\": @left,\n  \"r\": @right\n}",
+			"{\n  \"l\": @left,\n  \"o\": 1, // {optional: true}\n  \"r\": @right,\n  \"t\": @third\n}",
+			"{\n  \"r\": @right,\n  \"l\": @left,\n  \"o\": @third // {optional: true}\n}",
+			"{\n  \"a\": 1, // {optional: true}\n  \"b\": 2, // {optional: true}\n  \"c\": @third,\n  \"d\": @left,\n  \"e\": @right\n}",
+		} {
+			emit0(&project{Root: root, Types: loops}, "two required members leading into their own recursion")
+		}
+		emit0(&project{Root: `1 // {foo: 1, bar: 2}`}, "two unknown rules")
+		emit0(&project{Root: `{"a": 1, "b": 2, "a": 3, "b": 4}`}, "two duplicated keys")
+		emit0(&project{Root: `{"x": 1 // {min: 5}` + "\n, \"y\": \"s\" // {maxLength: 0}\n}"}, "two violated rules")
+	}
 	// (g) rule combinations, most of them structurally invalid: every pair and triple of 22 rule snippets on
 	// every example kind, as root and as an object member. Which of several applicable complaints is
 	// raised (and which rule it names) must not vary between runs.
